@@ -54,6 +54,8 @@ func main() {
 		fmt.Println("build ok:", b.dir)
 	case "check":
 		os.Exit(cmdCheck(os.Args[2:]))
+	case "conformance":
+		os.Exit(cmdConformance())
 	case "replay":
 		if len(os.Args) < 3 {
 			usage()
